@@ -113,6 +113,9 @@ class Model(Object):
         for y in ["reactions", "genes", "metabolites"]:
             for x in getattr(self, y):
                 x._model = self
+        # groups drop their model reference when serialized (Object.__getstate__)
+        for group in getattr(self, "groups", []):
+            group._model = self
         if not hasattr(self, "name"):
             self.name = None
 
